@@ -26,6 +26,12 @@ def main(args):
         return determinism(args[1:])
     if cmd == "digests":
         return digests(args[1:])
+    if cmd == "c19seq":
+        from sim import c19_generator
+
+        core.import_cspuz()
+        print(c19_generator.seq_digest(json.load(sys.stdin)))
+        return 0
     if cmd == "sensitivity":
         return sensitivity(args[1:])
     print("unknown selftest", cmd)
